@@ -287,14 +287,8 @@ def judge(case, obs):
     if obs["phase"] == "plugins":
         # loading the plugin set itself is no failure the property knows about
         kind = type(error).__name__
-        befores = [p for p, r, t in case["edges"] if t == ABSENT and r == BEFORE]
-        afters = [p for p, r, t in case["edges"] if t == ABSENT and r == AFTER]
-        what = "loading the section plugins raised %s: %s" % (kind, error)
-        if befores and isinstance(error, KeyError) and error.args == (ABSENT,):
-            return ("before-constraint-names-absent-plugin:KeyError", what)
-        if befores or afters:
-            return ("absent-plugin-constraint:load_section_plugins-raised-%s" % kind, what)
-        return ("load_section_plugins-raised-%s" % kind, what)
+        return ("load_section_plugins-raised-%s" % kind,
+                "loading the section plugins raised %s: %s" % (kind, error))
     if case["unknown"]:
         if error is None:
             return ("unknown-section:no-error",
@@ -370,10 +364,6 @@ def judge(case, obs):
     return None
 
 
-def strip_absent(case):
-    return {**case, "edges": [e for e in case["edges"] if e[2] != ABSENT]}
-
-
 def summary(obs):
     """Comparable digest of an observation (for route comparison and outcome classes)"""
     result = obs["result"]
@@ -391,16 +381,32 @@ def summary(obs):
 
 
 def run_case(case, distinfo=None):
-    """(key, description) or None; a problem that only shows with constraints naming the
-    absent plugin is reported as such ('constraints naming absent plugins are ignored')"""
+    """((key, description) or None, observation).
+
+    Constraints naming the absent plugin are ignored by the oracle (``judge`` only looks at
+    relations between installed plugins), so a case with such constraints is held to
+    exactly what the same case without them is held to."""
     obs = observe(case, distinfo)
     verdict = judge(case, obs)
-    if verdict is not None and obs["phase"] != "plugins" and any(
-            e[2] == ABSENT for e in case["edges"]):
-        stripped = strip_absent(case)
-        if judge(stripped, observe(stripped, distinfo)) is None:
-            verdict = ("absent-constraint-not-ignored:" + verdict[0], verdict[1])
+    if verdict is not None and obs["phase"] == "plugins":
+        verdict = (classify_plugin_failure(case, obs, distinfo), verdict[1])
     return verdict, obs
+
+
+def classify_plugin_failure(case, obs, distinfo=None):
+    """Key for 'load_section_plugins raised': is a constraint naming the absent plugin
+    to blame (the same plugin set without those constraints loads)?"""
+    error = obs["error"]
+    kind = type(error).__name__
+    absent_edges = [e for e in case["edges"] if e[2] == ABSENT]
+    if absent_edges:
+        stripped = {**case, "edges": [e for e in case["edges"] if e[2] != ABSENT]}
+        if observe(stripped, distinfo)["phase"] != "plugins":
+            befores = [e for e in absent_edges if e[1] == BEFORE]
+            if befores and isinstance(error, KeyError) and error.args == (ABSENT,):
+                return "before-constraint-names-absent-plugin:KeyError"
+            return "constraint-names-absent-plugin:load_section_plugins-raised-%s" % kind
+    return "load_section_plugins-raised-%s" % kind
 
 
 # ---------------------------------------------------------------------------------------
